@@ -376,6 +376,12 @@ impl Spec {
     }
   }
 
+  /// A replacement with end < start somewhere in the tree (the splice model
+  /// does not define its text).
+  pub fn has_reversed_op(&self) -> bool {
+    self.contains(&|s| matches!(s, Spec::Replace { ops, .. } if ops.iter().any(|o| o.end < o.start)))
+  }
+
   pub fn has_cached_under_replace(&self) -> bool {
     self.without_cached_under_replace() != *self
   }
